@@ -6,6 +6,7 @@ import (
 	"go/token"
 	"go/types"
 	"sort"
+	"strings"
 
 	"golang.org/x/tools/go/ssa"
 )
@@ -196,6 +197,35 @@ func c17R2(a *A) {
 			continue
 		}
 		a.touch(f)
+		// the value returned, as a canonical term over the event buffer (helpers inlined): every byte it is made of must lie
+		// within the 19 bytes the gate guarantees
+		t := newTB(nil)
+		t.names[f.Params[0]] = "buf"
+		instrs(f, func(in ssa.Instruction) {
+			if c, ok := in.(*ssa.Call); ok {
+				if cal := c.Common().StaticCallee(); cal != nil && cal.Name() == "Bytes" && len(c.Common().Args) == 1 && strip(c.Common().Args[0]) == ssa.Value(f.Params[0]) {
+					t.names[c] = "buf"
+				}
+			}
+		})
+		termOK := len(returnsOf(f)) > 0
+		var terms []string
+		for _, ret := range returnsOf(f) {
+			ts := t.term(ret.Results[0]).String()
+			terms = append(terms, ts)
+			var k, nb int64
+			switch {
+			case scan2(ts, "LE(%d,buf[%d])", &nb, &k), scan2(ts, "BE(%d,buf[%d])", &nb, &k):
+			case scan1(ts, "buf[%d]", &k):
+				nb = 1
+			default:
+				termOK = false
+				continue
+			}
+			if k < 0 || k+nb > 19 {
+				termOK = false
+			}
+		}
 		n := 0
 		instrs(f, func(in ssa.Instruction) {
 			switch x := in.(type) {
@@ -204,7 +234,7 @@ func c17R2(a *A) {
 				k, ok := constInt(x.Index)
 				key := fmt.Sprintf("bound@%s[index#%d]", name, n)
 				if !ok {
-					a.viol(rule, key, w.posOf(x), "header accessor indexes the buffer with a computed offset")
+					a.check(termOK, rule, key, w.posOf(x), "computed offset, but the value read is "+strings.Join(terms, "|"), "header accessor indexes the buffer with a computed offset")
 					return
 				}
 				a.check(k >= 0 && k <= 14, rule, key, w.posOf(x), fmt.Sprintf("index %d <= 14", k), fmt.Sprintf("index %d is outside the bytes guaranteed after validation (and checksum stripping)", k))
@@ -217,7 +247,7 @@ func c17R2(a *A) {
 					}
 					k, ok := constInt(b)
 					if !ok {
-						a.viol(rule, key, w.posOf(x), "header accessor slices the buffer with a computed bound")
+						a.check(termOK, rule, key, w.posOf(x), "computed bound, but the value read is "+strings.Join(terms, "|"), "header accessor slices the buffer with a computed bound")
 						return
 					}
 					if k < 0 || k > 19 {
@@ -231,6 +261,11 @@ func c17R2(a *A) {
 				a.undecided(rule, fmt.Sprintf("bound@%s[other#%d]", name, n), w.posOf(in), "unrecognised indexing form %T", in)
 			}
 		})
+		if n == 0 {
+			// all reading is done by helpers
+			a.check(termOK, rule, "bound@"+name+"[value]", w.pos(f.Pos()), "reads "+strings.Join(terms, "|")+", within the 19 guaranteed bytes",
+				fmt.Sprintf("%s() returns %v: not a read of header bytes within [0,19)", name, terms))
+		}
 	}
 	// the Is* predicates only call Type()
 	bev := w.namedType(w.Repl, "BinlogEvent")
@@ -429,4 +464,14 @@ func provablyNonNilErr(v ssa.Value) bool {
 		return provablyNonNilErr(c.Common().Args[0])
 	}
 	return false
+}
+
+func scan1(s, format string, a *int64) bool {
+	n, err := fmt.Sscanf(s, format, a)
+	return err == nil && n == 1 && fmt.Sprintf(format, *a) == s
+}
+
+func scan2(s, format string, a, b *int64) bool {
+	n, err := fmt.Sscanf(s, format, a, b)
+	return err == nil && n == 2 && fmt.Sprintf(format, *a, *b) == s
 }
